@@ -394,6 +394,9 @@ def run_property(prop_factory, tier, seed, replay=None):
             except Exception as ex:
                 ff = "HARNESS-ERROR witness replay failed: %r" % (ex,)
         else:
+            if prop.server_of(wcase) not in _W["paths"]:
+                info.setdefault("witness_not_replayed", []).append(e["id"])     # restricted run (server of this witness not built)
+                continue
             ob = _srv(prop.server_of(wcase)).run_one(prop.request(wcase))
             try:
                 ff = prop.check(wcase, ob)
